@@ -189,3 +189,29 @@ package convert
 //@   props C11
 //@   ensures imp(result1 == nil, len(result0) == len(in))
 //@   loop 1 invariant fresh(res) && len(res) == rangeindex + 1 && rangeindex < len(in)
+
+// ---------------------------------------------------------------- C15: announced keepalive values
+// The connect request puts the interval and timeout on the wire in whole seconds (rounded down),
+// and the peer's converter reads them back as that many seconds.
+//@ lemma connectRequestWholeSeconds
+//@   props C15
+//@   forall m *message.ConnectRequest
+//@   requires m != nil && 0 <= m.PingInterval && m.PingInterval < 4294967296000000000 && 0 <= m.PingTimeout && m.PingTimeout < 4294967296000000000
+//@   let p, e1 = WireToProto(m)
+//@   let m2, e2 = ProtoToWire(p)
+//@   ensures e1 == nil && p != nil && typeis(p.Message, *autogen.Message_ConnectRequest)
+//@   ensures unbox(p.Message, *autogen.Message_ConnectRequest).ConnectRequest.PingInterval * 1000000000 <= m.PingInterval && m.PingInterval < (unbox(p.Message, *autogen.Message_ConnectRequest).ConnectRequest.PingInterval + 1) * 1000000000
+//@   ensures unbox(p.Message, *autogen.Message_ConnectRequest).ConnectRequest.PingTimeout * 1000000000 <= m.PingTimeout && m.PingTimeout < (unbox(p.Message, *autogen.Message_ConnectRequest).ConnectRequest.PingTimeout + 1) * 1000000000
+//@   ensures imp(e2 == nil, typeis(m2, *message.ConnectRequest) && unbox(m2, *message.ConnectRequest) != nil)
+//@   ensures imp(e2 == nil, unbox(m2, *message.ConnectRequest).PingInterval == unbox(p.Message, *autogen.Message_ConnectRequest).ConnectRequest.PingInterval * 1000000000)
+//@   ensures imp(e2 == nil, unbox(m2, *message.ConnectRequest).PingTimeout == unbox(p.Message, *autogen.Message_ConnectRequest).ConnectRequest.PingTimeout * 1000000000)
+
+// error wrappers of the converter always return an error value
+//@ func errorConvertToWire
+//@   props C11 C12 C15
+//@   modifies nothing
+//@   ensures result != nil
+//@ func errorConvertToProto
+//@   props C11 C12 C15
+//@   modifies nothing
+//@   ensures result != nil
